@@ -47,7 +47,7 @@ TEXT = {
     "C05": {
         "technique": "exhaustive enumeration of the schema-type x Go-kind x position matrix with guard/canary memory around every destination (fault visibility), differential value oracle from the reference encoder; evaluated in a worker subprocess",
         "design_ref": "DESIGN.md §5 C05",
-        "level_text": "Every cell of the matrix (37 schema types x 56 Go types x {field, *field, **field, slice element, pointer slice element, map value}) is built in every run; where Schema.Codec accepts the pair, in-range and out-of-range datums are decoded into a struct whose neighbours and surroundings are filled with a canary pattern: canaries must be intact and an error-free decode must leave exactly the datum's value. Exhaustive over the matrix, sampled over values. Pairs the property names as mismatched must be refused when the decoder is built. A second unit passes every form of destination (T, *T, **T, slices, maps, scalars, nil) to ReadFile between guard words.",
+        "level_text": "Every cell of the matrix (37 schema types x 56 Go types x {field, *field, **field, slice element, pointer slice element, map value}) is built in every run; where Schema.Codec accepts the pair, in-range and out-of-range datums are decoded into a struct whose neighbours and surroundings are filled with a canary pattern: canaries must be intact and an error-free decode must leave exactly the datum's value. Exhaustive over the matrix, sampled over values. A fixed schema paired with an array of another size or of non-byte elements must be refused when the decoder is built. A second unit passes every form of destination (T, *T, **T, slices, maps, scalars, nil) to ReadFile between guard words.",
         "level_note": "A wild store that lands in unrelated heap memory is visible only as a worker crash or a wrong neighbour; rejection of a pair is never demanded, only soundness of accepted pairs.",
     },
     "C06": {
